@@ -91,6 +91,14 @@ def pat(rng, n, name):
         t = n // 3 + 1
         for i in range(n):
             l[i] = rng.randrange(B) if t <= i < 2 * t else (1 if i == 0 else 0)
+    elif name == "lo1_hiones":              # low half = 1, high half all ones: x1 - x0 maximal (positive cross term,
+        h = n // 2                          # and the difference itself is all-ones-ish one level down)
+        l = ([1] + [0] * (h - 1) if h else []) + [MAX] * (n - h)
+    elif name == "hi1_loones":              # the mirror image: x0 all ones, x1 = 1 (negative cross term)
+        h = n // 2
+        l = [MAX] * h + [0] * (n - h - 1) + [1]
+    elif name == "onebit":                  # one set bit per digit
+        l = [1 << rng.randrange(64) for _ in range(n)]
     elif name == "maxm1":
         l = [MAX - 1] + [MAX] * (n - 1)
     elif name == "small":
@@ -107,7 +115,11 @@ PAIRS = [("rand", "rand"), ("ones", "ones"), ("bk", "rand"), ("rand", "bk_top"),
          ("lowzero", "midzero"), ("midzero", "lowzero"), ("hi_small", "hi_big"), ("hi_big", "hi_big"),
          ("hi_small", "hi_small"), ("eqhalves", "rand"), ("eqhalves", "eqhalves"), ("thirds_alt", "rand"),
          ("thirds_alt", "thirds_alt"), ("thirds_neg2", "ones"), ("maxm1", "ones"), ("small", "small"),
-         ("lowzero", "lowzero"), ("ones", "bk"), ("mixed", "runs"), ("half", "rand")]
+         ("lowzero", "lowzero"), ("ones", "bk"), ("mixed", "runs"), ("half", "rand"),
+         ("lo1_hiones", "lo1_hiones"), ("lo1_hiones", "hi1_loones"), ("hi1_loones", "hi1_loones"), ("onebit", "onebit"),
+         ("onebit", "lo1_hiones")]
+# pairs that are never sampled away once the recursive regimes are entered (nested cross terms with extreme carries)
+ALWAYS = [("lo1_hiones", "lo1_hiones"), ("lo1_hiones", "hi1_loones"), ("onebit", "onebit"), ("hi1_loones", "onebit")]
 
 def short_lengths(tS, tK, tier, rng):
     s = [1, 2, 3]
@@ -174,12 +186,24 @@ def gen(rng, tier):
                     pairs = rng.sample(PAIRS, 5 if tier == "thorough" else 2) + [("rand", "rand")]
                 else:
                     pairs = rng.sample(PAIRS, 10 if tier == "thorough" else 5) + [("rand", "rand"), ("ones", "ones")]
+                if n > tS and not big_case:
+                    pairs = pairs + ALWAYS
                 for (pa, pb) in pairs:
                     emit(reqs, rng, pat(rng, n, pa), pat(rng, m, pb))
                 if n == m:
                     a = pat(rng, n, rng.choice(["rand", "ones", "hi_small", "thirds_alt", "midzero"]))
                     reqs.append("C02 %s %s %s" % (rng.choice(U_OPS), wl(a), wl(a)))       # squares
                     reqs.append("C02 i.mul -%s +%s" % (wl(a), wl(a)))
+    # every length just inside the recursive regimes (both parities matter for the split sizes): extreme-halves
+    # operands against themselves and a slightly longer partner
+    hi_len = min(2 * tK, 4 * tS + 12) if tier == "quick" else 2 * tK + 8
+    for n in range(tS + 1, hi_len + 1):
+        if tier == "quick" and n > 3 * tS and n % 3:
+            continue
+        for pa in ("lo1_hiones", "onebit"):
+            a = pat(rng, n, pa)
+            reqs.append("C02 u.mul %s %s" % (wl(a), wl(a)))
+            reqs.append("C02 u.mul %s %s" % (wl(a), wl(pat(rng, n + rng.randrange(0, 4), pa))))
     # Toom-3 with nested Karatsuba / Toom-3 (shorter operand well above tKara)
     deep = [(3 * tK + 1, 3 * tK + 1), (3 * tK + 5, 4 * tK), (tK + 1, 2 * tK + 1)]
     if tier == "thorough":
